@@ -2,11 +2,11 @@
 //!
 //! Every filter is registered on a real `Tera` instance and called THROUGH TEMPLATES.
 //! Families:
-//!   strings      every string of length <= 2 (quick) / <= 4 (thorough) over a 47-character alphabet
+//!   strings      every string of length <= 3 (quick) / <= 4 (thorough) over a 47-character alphabet
 //!                through b64_encode x {url_safe} x {padded} (+ defaults, + options passed as context
 //!                variables), b64_encode | b64_decode, urlencode, urlencode_strict, slug
 //!   long         every length 0..=64 x 47 rotations of the alphabet, and 4 KiB strings (same programs)
-//!   b64-decode   every string of length <= 4 (quick) / <= 6 (thorough) over `A Q a g 0 + / - _ = space é` through b64_decode
+//!   b64-decode   every string of length <= 5 (quick) / <= 6 (thorough) over `A Q a g 0 + / - _ = space é` through b64_decode
 //!                (default, url_safe=false, url_safe=true) against an independent RFC 4648 decoder
 //!   json         the common value alphabet, nested one level (alone, [v], {"k": v}, [v, w],
 //!                {"a": v, "b": w}) x {default, pretty=true, pretty=false} against an own strict
@@ -905,8 +905,8 @@ fn main() {
     let tera = build_tera();
     let alpha = alphabet();
     let n_alpha = alpha.len() as u64;
-    let max_len: u32 = if thorough { 4 } else { 2 };
-    let dec_max_len: u32 = if thorough { 6 } else { 4 };
+    let max_len: u32 = if thorough { 4 } else { 3 };
+    let dec_max_len: u32 = if thorough { 6 } else { 5 };
     run.extra(
         "alphabets",
         json!({
